@@ -32,6 +32,40 @@ def check(ctx):
     drive("tear", [])
     drive("sigkill", ["-runs", "40" if quick else "1500"])
     recs, violations, drift = judge(ctx, "C12", files, "C12")
+    # ---- IndexTear.tla: TLC checks the statement's laws on every (old content, new content, cut position) and predicts
+    # ---- what the fresh lookups find; the tear runs of the real code are compared with the predictions (conformance: drift)
+    pred_file = ctx.path("tear-pred.ndjson")
+    tcfg = open(os.path.join(SPEC, "cache", "MC_IndexTear.cfg")).read().replace("Emit = FALSE", "Emit = TRUE")
+    tres = tlc(ctx, "cache", "MC_IndexTear.tla", "MC_IndexTear_emit.cfg", cfg_text=tcfg, emit_to=pred_file, workers=4, timeout=600,
+               name="indextear")
+    require_tlc_ok(tres, "IndexTear.tla: a cut index write at every byte position")
+    pred = {}
+    for line in open(pred_file):
+        c = json.loads(line)
+        pred[(c["old"], c["new"], c["k"])] = c
+    import hashlib
+    blocks = {"c0": b"", "c1": b"1", "c2": b"c2-first-|c2-second|Z", "c3": b"c3-FIRST-|c3-SECOND|Y"}
+    hx = {c: hashlib.sha256(b).hexdigest() for c, b in blocks.items()}
+    # the abstraction "an id field the cut runs through names no stored output" is checked on the real SHA-256 values;
+    # a (pair, cut) for which it does not hold is left out of the comparison
+    def mix_is_torn(o, n, k):
+        j = k - 68
+        return o == n or not (0 < j < 64) or (hx[n][:j] + hx[o][j:]) not in hx.values()
+    tear_cmp = tear_diff = stale = 0
+    for line in open(ctx.path("traces-tear.ndjson")):
+        r = json.loads(line)
+        if r.get("mode") != "tear":
+            continue
+        ops = r["prog"]["w1"]
+        pc = pred.get((ops[0]["c"], ops[1]["c"], r["inject"]["k"]))
+        if pc is None or not mix_is_torn(ops[0]["c"], ops[1]["c"], r["inject"]["k"]):
+            continue
+        tear_cmp += 1
+        stale += 1 if pc["stale"] else 0
+        if pc["getbytes"] != r["fresh"]["i1.getbytes"] or pc["getfile"] != r["fresh"]["i1.getfile"]:
+            tear_diff += 1
+            drift.append(dict(kind="tear-differs-from-IndexTear", what="old=%s new=%s cut after %d bytes: real %s / %s, IndexTear.tla %s / %s" % (
+                ops[0]["c"], ops[1]["c"], r["inject"]["k"], r["fresh"]["i1.getbytes"], r["fresh"]["i1.getfile"], pc["getbytes"], pc["getfile"])))
     c = results["crash"]["counters"]
     coverage = dict(
         evaluations=sum(r["counters"].get("runs", 0) for r in results.values()),
@@ -45,6 +79,8 @@ def check(ctx):
         samples=results["crash"]["samples"][:3],
         traces_validated_against_impl=len(recs), injections=dict(crash=c.get("inject_crash", 0), fail=c.get("inject_fail", 0), short=c.get("inject_short", 0),
                                                                      torn_index_write_then_halt=results["tear"]["counters"].get("inject_tear", 0)),
+        index_tear_model=dict(states=tres.distinct, predictions=len(pred), real_runs_compared=tear_cmp, differing=tear_diff,
+                              cuts_with_complete_bytes_but_stale_size_predicted=stale),
         l2_conformant=(len(drift) == 0), drift_total=len(drift), drift=drift[:5], bug_configs_rejected_by_tlc=bugs, exhaustive=True)
     return conclude(ctx, violations, "model_checking", coverage, ASSUME)
 
